@@ -1,5 +1,5 @@
 (* C12 proofs, part B: every ThrottleList method preserves the invariant; accounting of held quota. *)
-From Coq Require Import List NArith Bool Lia.
+From Coq Require Import List NArith Bool Lia PeanoNat.
 From LTV Require Import Params_gen.
 From LTV.C12 Require Import Model ProofsA.
 Import ListNotations.
@@ -120,24 +120,21 @@ Proof.
     eexists. split; [reflexivity|].
     destruct b.
     - pose proof (setq_sumq id (nq - q) _ _ Hl) as Hsq.
-      split; [apply mk_inv; simp_tl; rewrite ?setq_length, ?setq_ids; auto; try lia|].
-      + apply setq_capped; auto. lia.
-      + intros; congruence.
-      + unfold held in *. simp_tl. rewrite ?setq_ids, <- ?Ha, <- ?Hi. rewrite <- H1.
-        splits; auto; try lia.
-        intros _ Hle. rewrite <- Hu in Hle. lia.
+      split; [apply mk_inv; simp_tl; rewrite ?setq_length, ?setq_ids; auto; try lia; try (intros; congruence);
+              try (apply setq_capped; auto; lia)|].
+      unfold held in *. simp_tl. rewrite ?setq_ids, <- ?Ha, <- ?Hi. rewrite <- H1.
+        splits; auto; try lia; try congruence.
     - pose proof (setq_sumq id (nq - q) _ _ Hl) as Hsq.
-      split; [apply mk_inv; simp_tl; rewrite ?setq_length, ?setq_ids; auto; try lia|].
-      + apply setq_capped; auto. lia.
-      + intros; congruence.
-      + unfold held in *. simp_tl. rewrite ?setq_ids, <- ?Ha, <- ?Hi. rewrite <- H1.
-        splits; auto; try lia. discriminate. }
+      split; [apply mk_inv; simp_tl; rewrite ?setq_length, ?setq_ids; auto; try lia; try (intros; congruence);
+              try (apply setq_capped; auto; lia)|].
+      unfold held in *. simp_tl. rewrite ?setq_ids, <- ?Ha, <- ?Hi. rewrite <- H1.
+        splits; auto; try lia; try congruence. }
   destruct (lookup id (act t1)) as [nq|] eqn:La.
-  - destruct (Hgo nq true La) as (t' & Et & R). exists t'. split; [exact Et|].
+  - destruct (Hgo nq true eq_refl) as (t' & Et & R). exists t'. split; [exact Et|].
     splits; try apply R. intros q _ Hq Hle. rewrite <- Ha, La in Hq. injection Hq as <-.
     apply R; auto.
   - destruct (lookup id (inact t1)) as [nq|] eqn:Li.
-    + destruct (Hgo nq false Li) as (t' & Et & R). exists t'. split; [exact Et|].
+    + destruct (Hgo nq false eq_refl) as (t' & Et & R). exists t'. split; [exact Et|].
       splits; try apply R. intros q _ Hq. rewrite <- Ha, La in Hq. discriminate.
     + destruct Hsame as (t' & Et & R). exists t'. split; [exact Et|]. injection Et as <-.
       splits; try apply R. intros q _ Hq. rewrite <- Ha, La in Hq. discriminate.
@@ -176,17 +173,24 @@ Qed.
 
 Lemma nodup_insert_mid (a b : list N) x : NoDup (a ++ b) -> ~ In x (a ++ b) -> NoDup ((a ++ [x]) ++ b).
 Proof.
-  intros H Hn. rewrite <- app_assoc. cbn [app]. apply NoDup_Add with (a := x) (l := a ++ b); [|constructor; auto].
-  apply Add_app.
+  intros H Hn. rewrite <- app_assoc. cbn [app].
+  apply (NoDup_Add (Add_app x a b)). split; assumption.
 Qed.
 
 Lemma nodup_insert_end (a b : list N) x : NoDup (a ++ b) -> ~ In x (a ++ b) -> NoDup (a ++ b ++ [x]).
 Proof.
   intros H Hn. rewrite app_assoc.
-  apply NoDup_Add with (a := x) (l := a ++ b); [|constructor; auto].
-  rewrite <- (app_nil_r ((a ++ b) ++ [x])). rewrite <- app_assoc. cbn [app].
-  replace (a ++ b) with ((a ++ b) ++ []) at 2 by apply app_nil_r. apply Add_app.
+  pose proof (Add_app x (a ++ b) []) as HA. rewrite app_nil_r in HA.
+  apply (NoDup_Add HA). split; assumption.
 Qed.
+
+Lemma nodup_app_l (a b : list N) : NoDup (a ++ b) -> NoDup a.
+Proof.
+  induction a as [|x a IH]; cbn [app]; intros H; [constructor|]. inversion H; subst.
+  constructor; [|auto]. intros Hin. match goal with H : ~ In _ _ |- _ => apply H end. apply in_or_app. left. assumption.
+Qed.
+Lemma nodup_app_r (a b : list N) : NoDup (a ++ b) -> NoDup b.
+Proof. induction a as [|x a IH]; cbn [app]; intros H; [assumption|]. inversion H; auto. Qed.
 
 Lemma nodup_app_disj (a b : list N) x : NoDup (a ++ b) -> In x a -> In x b -> False.
 Proof.
@@ -209,8 +213,8 @@ Lemma nodup_remove_both ida (a b : list (N * N)) :
   NoDup (ids a ++ ids b) -> NoDup (ids (remove_id ida a) ++ ids (remove_id ida b)).
 Proof.
   intros H. apply nodup_app_sub with (a := ids a) (b := ids b); auto.
-  - apply remove_nodup. eapply NoDup_app_remove_r; eassumption.
-  - apply remove_nodup. eapply NoDup_app_remove_l; eassumption.
+  - apply remove_nodup. eapply nodup_app_l; eassumption.
+  - apply remove_nodup. eapply nodup_app_r; eassumption.
   - intros x. apply remove_ids_incl.
   - intros x. apply remove_ids_incl.
 Qed.
@@ -229,18 +233,22 @@ Proof.
   { apply add32_small. rewrite P2, w32_val. unfold Nmax in *. lia. }
   destruct (enabled t) eqn:En; cbn [negb].
   - destruct (alloc (minc t) (maxc t) 0 (outst t) (unalloc t)) as [[q' o'] u'] eqn:Ea.
-    destruct (alloc_spec _ _ _ _ _ _ _ _ (proj1 (proj2 P6)) (proj2 (proj2 P6)) ltac:(lia) Ea)
-      as (g & -> & -> & Hu & _ & Hcap). specialize (Hcap ltac:(unfold cap; lia)).
+    assert (Hw : outst t + unalloc t < w32) by lia.
+    destruct (alloc_spec _ _ _ _ _ _ _ _ (proj1 (proj2 P6)) (proj2 (proj2 P6)) Hw Ea)
+      as (g & -> & -> & Hu & _ & Hcap).
+    assert (Hcap' : 0 + g <= cap) by (apply Hcap; unfold cap; lia).
     split; [apply mk_inv; simp_tl; rewrite ?app_length, ?sumq_app; cbn [length sumq fold_right snd]; auto; try lia|].
     + unfold ids. rewrite map_app. cbn [map fst]. apply nodup_insert_mid; auto.
-    + apply Forall_app; split; auto. constructor; [cbn; lia|constructor].
+    + unfold capped. apply Forall_app; split; auto; repeat constructor; cbn; unfold cap in *; lia.
     + intros; congruence.
     + unfold held. simp_tl. splits; auto; lia.
   - destruct (i_dis _ I En) as (D1 & D2 & D3 & D4). rewrite D3 in *.
-    split; [apply mk_inv; simp_tl; rewrite ?app_length, ?sumq_app; cbn [length sumq fold_right snd]; auto; try lia|].
-    + unfold ids. rewrite map_app. cbn [map fst]. apply nodup_insert_mid; auto.
-    + apply Forall_app; split; auto. constructor; [cbn; unfold cap; lia|constructor].
-    + constructor.
+    cbn [sumq fold_right length ids map] in *. rewrite ?app_nil_r, ?Nat.add_0_r, ?N.add_0_r in *.
+    split; [apply mk_inv; simp_tl; rewrite ?app_length, ?sumq_app, ?Hsz;
+            cbn [length sumq fold_right snd ids map]; rewrite ?app_nil_r; auto; try lia|].
+    + unfold ids. rewrite map_app. cbn [map fst].
+      pose proof (nodup_insert_mid (map fst (act t)) [] id) as HN. rewrite !app_nil_r in HN. apply HN; auto.
+    + unfold capped. apply Forall_app; split; auto; repeat constructor; cbn; unfold cap in *; lia.
     + intros _. splits; auto. apply Forall_app; split; auto.
     + unfold held. simp_tl. splits; auto.
 Qed.
@@ -289,8 +297,8 @@ Proof.
         clear - A D4. induction (act t) as [|[i w] l IH]; cbn [lookup] in A; [discriminate|].
         inversion D4; subst. destruct (i =? id); [injection A as <-; assumption|auto]. }
       subst q. splits; auto; try lia.
-      clear - D4. induction D4 as [|[i w] l Hq _ IH]; cbn [remove_id]; [constructor|].
-      destruct (i =? id); [assumption|constructor; assumption].
+      clear - D4. induction D4 as [|[i w] l Hq Hl IH]; cbn [remove_id]; [constructor|].
+      destruct (i =? id); [exact Hl|constructor; assumption].
     - unfold held. simp_tl. splits; auto. lia. }
   destruct (lookup id (act t)) as [q|] eqn:A.
   - apply Hgo. left. split; auto.
